@@ -7,14 +7,21 @@ import "example.com/scion-time/net/ntske"
 // Contracts for the verification machinery in /verif (comment-only; not compiled without the tag "verif").
 
 // b is an arbitrary datagram; the loop over extension fields must make progress on every input.
+// The unique identifier reported by a successful decode lies within the bytes that precede the authenticator, i.e.
+// within the additional data b[:pkt.Auth.pos] that authenticate() verifies (nothing after the authenticator is used).
+//@ pred authenticatedID(pkt, b) = exists(p, 48, pkt.Auth.pos, p+4+len(pkt.UniqueID.ID) <= pkt.Auth.pos && forall(q, 0, len(pkt.UniqueID.ID), pkt.UniqueID.ID[q] == b[p+4+q]))
 //@ func DecodePacket
 //@   requires pkt != nil
 //@   modifies *pkt, pkt.Cookies[:], pkt.CookiePlaceholders[:]
 //@   allocates
 //@   loop 0 invariant pos >= 48
+//@   loop 0 invariant foundUniqueID && !foundAuthenticator ==> exists(p, 48, pos, p+4+len(pkt.UniqueID.ID) <= pos && p+4+len(pkt.UniqueID.ID) <= len(b) && forall(q, 0, len(pkt.UniqueID.ID), pkt.UniqueID.ID[q] == b[p+4+q]))
+//@   loop 0 invariant foundUniqueID && foundAuthenticator ==> authenticatedID(pkt, b)
+//@   loop 0 invariant foundAuthenticator ==> 48 <= pkt.Auth.pos && pkt.Auth.pos <= len(b)
 //@   loop 0 invariant regionof(pkt.Cookies) == old(regionof(pkt.Cookies)) || fresh(pkt.Cookies)
 //@   loop 0 invariant regionof(pkt.CookiePlaceholders) == old(regionof(pkt.CookiePlaceholders)) || fresh(pkt.CookiePlaceholders)
 //@   loop 0 decreases len(b)-pos
+//@   ensures authid: err == nil ==> 48 <= pkt.Auth.pos && pkt.Auth.pos <= len(b) && authenticatedID(pkt, b)
 
 //@ func (*Packet).FirstCookie
 //@   requires pkt != nil
@@ -74,6 +81,7 @@ import "example.com/scion-time/net/ntske"
 //@   allocates
 //@   ensures kind: (result == nil) == (old(u.extHdr.Type) == 260)
 //@   ensures value: result == nil ==> mathint(len(u.ID)) == floormod(mathint(u.extHdr.Length)-4, 65536) && fresh(u.ID)
+//@   ensures content: result == nil ==> forall(q, 0, len(u.ID), q < len(buf)-pos ==> u.ID[q] == buf[pos+q])
 
 //@ func (*Cookie).unpack
 //@   requires c != nil && 0 <= pos && pos <= len(buf)
